@@ -123,6 +123,9 @@ def lifecycle(spec, log):
         kw['run'] = spec['run']
     if spec.get('tuple_args'):
         kw['args'] = tuple(targs)
+    if spec.get('mux'):
+        from pyworkers.utils import Pipe
+        kw['results_pipe'] = Pipe()
     try:
         if 'Remote' in spec['cls']:
             from pyworkers.remote_server import spawn_server
@@ -202,7 +205,31 @@ def lifecycle(spec, log):
             obs.append(observe(w, bounded, 'o6'))
             for i, o in enumerate(obs):
                 log.ev('observation', n=i, obs=o)
-        if persistent and dead is True:
+        if persistent and spec.get('mux'):
+            # Pool-style consumer: multiplex on the raw endpoint; must see an end marker or EOF
+            import multiprocessing.connection as mpc
+            ep = w.results_endpoint
+            while True:
+                ready = bounded('mux_wait', lambda: mpc.wait([ep], spec.get('mux_timeout', 8)), 40)
+                if ready is HANG or isinstance(ready, Raised):
+                    log.ev('mux_end', how='wait-failed')
+                    break
+                if not ready:
+                    log.ev('mux_end', how='timeout-no-marker-no-eof', dead=(dead is True))
+                    break
+                try:
+                    msg = ep.recv()
+                except EOFError:
+                    log.ev('mux_end', how='eof')
+                    break
+                except BaseException as e:  # noqa
+                    log.ev('mux_end', how='recv-raised:' + type(e).__name__)
+                    break
+                log.ev('mux_msg', counter=msg[0], flag=msg[1], value=_raw(msg[2]))
+                if not msg[1]:
+                    log.ev('mux_end', how='marker')
+                    break
+        elif persistent and dead is True:
             it = w.results_iter()
             while True:
                 r = bounded('stream_next', lambda: next(it, StopIteration), 20)
